@@ -86,6 +86,8 @@ type Monitor struct {
 	rateRows map[string]int64 // "height/token" → value, for immutability
 	// AllowUndetermined: addresses the generator marked as don't-care for this block
 	statusOf map[factom.Bytes32]int64
+	// sigPrefix marks mismatches of blocks that have a recorded-finding shape (tagged scenarios)
+	sigPrefix string
 }
 
 func NewMonitor(e forge.Eras, period uint64, db *sql.DB, r *orch.Result, seed int64) (*Monitor, error) {
@@ -98,6 +100,10 @@ func NewMonitor(e forge.Eras, period uint64, db *sql.DB, r *orch.Result, seed in
 }
 
 func (mo *Monitor) add(props []string, sig, detail string, c map[string]interface{}) {
+	if mo.sigPrefix != "" {
+		sig = mo.sigPrefix + sig
+		detail = mo.sigPrefix + "— " + detail
+	}
 	c["seed"] = mo.Seed
 	c["eras"] = mo.E
 	mo.Mism = append(mo.Mism, Mismatch{Props: props, Sig: sig, Detail: detail, Case: c})
@@ -139,6 +145,13 @@ func (mo *Monitor) AfterBlock(b *forge.Block) error {
 	e := mo.E
 	mo.RS.tip = h - 1
 	x := mo.M.Step(mo.Prev, b, mo.RS, node.BurnRCD)
+	mo.sigPrefix = ""
+	if x.OutOfBand {
+		mo.sigPrefix = "oob-pre202 "
+	}
+	if len(x.Impostors) > 0 {
+		mo.sigPrefix = "spr-impostor "
+	}
 	obsH, neg, err := harness.ReadBalances(mo.DB, "pn_addresses")
 	if err != nil {
 		return err
@@ -203,6 +216,10 @@ func (mo *Monitor) AfterBlock(b *forge.Block) error {
 				}
 				if rejectedAddrs[a] {
 					props["C03"] = true
+				}
+				if mo.sigPrefix != "" {
+					props["C11"] = true
+					props["C12"] = true
 				}
 				if got < was && len(evs) == 0 {
 					props["C03"] = true
@@ -534,6 +551,20 @@ func (mo *Monitor) AfterBlock(b *forge.Block) error {
 			}
 			r.Sample(map[string]interface{}{"snapshot_height": h, "holders_paid": paid, "total_paid_peg_units": total, "cap": rules.HolderCapPEG, "seed": mo.Seed})
 		}
+	}
+	if x.OutOfBand {
+		// recorded finding: the daemon applied nothing of this block, so it never saw its entries;
+		// forget them in the model too, otherwise every later block would be reported as well
+		for _, en := range b.Tx {
+			delete(mo.M.Seen, en.Hash)
+		}
+		var keep []rules.Held
+		for _, p := range mo.M.Pending {
+			if p.Height != h {
+				keep = append(keep, p)
+			}
+		}
+		mo.M.Pending = keep
 	}
 	mo.Prev = obs
 	return nil
